@@ -175,9 +175,113 @@ func genTrialScenario(rng *rand.Rand, n int, seed int64) *CaseDesc {
 	return c
 }
 
+// genTwoIfaceScenario: one concrete type (T6) implementing several interfaces, its provider Loose for only some of them,
+// consumers of the different interfaces in either order.  Whether a provider may stand in for an interface is decided per
+// (type, interface), not per type.
+func genTwoIfaceScenario(rng *rand.Rand, n int, seed int64) *CaseDesc {
+	c := &CaseDesc{N: n, Seed: seed, Shape: "flat"}
+	add := func(p *ProvDesc) *ProvDesc {
+		p.Idx = len(c.Provs)
+		if p.Kind == "" {
+			p.Kind = "inj"
+		}
+		c.Provs = append(c.Provs, p)
+		return p
+	}
+	ifs := []int{cI0, cI1, cI2}
+	rng.Shuffle(len(ifs), func(i, j int) { ifs[i], ifs[j] = ifs[j], ifs[i] })
+	ia, ib := ifs[0], ifs[1]
+	src := add(&ProvDesc{Out: []int{6}, Loose: []int{ia}})
+	if chance(rng, 0.3) {
+		src.Kind = "lit"
+	}
+	if chance(rng, 0.25) {
+		src.Loose = append(src.Loose, ifs[2])
+	}
+	if chance(rng, 0.3) {
+		// an exact provider of the other interface's usual stand-in, not Loose
+		add(&ProvDesc{Out: []int{pick(rng, []int{5, 7})}})
+	}
+	first, second := ia, ib
+	if chance(rng, 0.4) {
+		first, second = ib, ia
+	}
+	a := add(&ProvDesc{In: []int{first}, Out: []int{0}})
+	b := add(&ProvDesc{In: []int{second}, Out: []int{1}})
+	for _, q := range []*ProvDesc{a, b} {
+		switch rng.Intn(4) {
+		case 0:
+			q.Desired = true
+		case 1:
+			q.Required = chance(rng, 0.4)
+		case 2:
+			q.Out = nil // auto-desired
+		}
+	}
+	fin := add(&ProvDesc{})
+	for _, q := range []*ProvDesc{a, b} {
+		if len(q.Out) > 0 && chance(rng, 0.6) {
+			fin.In = append(fin.In, q.Out[0])
+		}
+	}
+	c.Ops = []Op{{Kind: "invoke"}, {Kind: "invoke"}}
+	return c
+}
+
+// genStaticFailScenario: a fallible static injector that fails, with providers of one type on both sides of it -- an included
+// static injector (or literal) before it, and after it a Cacheable provider of the same type that is left out of the chain
+// (it also asks for a type nobody provides) or stays in.  What the failing injector makes the static chain skip is the
+// INCLUDED remainder only: a value produced before it stays visible to every invocation.
+func genStaticFailScenario(rng *rand.Rand, n int, seed int64) *CaseDesc {
+	c := &CaseDesc{N: n, Seed: seed, Shape: "flat", InvOut: []int{cError}}
+	add := func(p *ProvDesc) *ProvDesc {
+		p.Idx = len(c.Provs)
+		if p.Kind == "" {
+			p.Kind = "inj"
+		}
+		c.Provs = append(c.Provs, p)
+		return p
+	}
+	perm := rng.Perm(5)
+	T, M, X := perm[0], perm[1], perm[2]
+	first := add(&ProvDesc{Out: []int{T}, Cacheable: true})
+	if chance(rng, 0.3) {
+		first.Kind, first.Cacheable = "lit", false
+	}
+	f := add(&ProvDesc{Out: []int{cTE}, Cacheable: true, FailMask: []uint{0xff, 1, 0xff, 2}[rng.Intn(4)]})
+	if chance(rng, 0.4) {
+		f.Out = []int{X, cTE}
+	}
+	later := add(&ProvDesc{Out: []int{T}, Cacheable: true})
+	switch rng.Intn(3) {
+	case 0: // left out: asks for a type nobody provides
+		later.In = []int{M}
+	case 1: // left out: Shun'd, and the earlier provider will do
+		later.Shun = true
+	}
+	if chance(rng, 0.3) {
+		later.Out = append(later.Out, X)
+	}
+	// (the invoke function's error comes from the final function: a static injector's TerminalError is not a returned value)
+	add(&ProvDesc{In: []int{T}, Out: []int{cError}})
+	if chance(rng, 0.3) {
+		c.HasInit = true
+		c.InitOut = []int{T}
+		c.Ops = append(c.Ops, Op{Kind: "init"})
+	}
+	c.Ops = append(c.Ops, Op{Kind: "invoke"}, Op{Kind: "invoke"})
+	return c
+}
+
 func genCase(rng *rand.Rand, n int, seed int64, pf Profile) *CaseDesc {
+	if pf.PCacheable > 0 && pf.PReorder == 0 && uint64(seed)%37 == 5 {
+		return genStaticFailScenario(rng, n, seed)
+	}
 	if pf.PShun > 0 && pf.PReorder == 0 && uint64(seed)%29 == 7 {
 		return genTrialScenario(rng, n, seed)
+	}
+	if pf.PIface > 0 && pf.PReorder == 0 && uint64(seed)%31 == 11 {
+		return genTwoIfaceScenario(rng, n, seed)
 	}
 	c := &CaseDesc{N: n, Seed: seed, Shape: "flat"}
 	plain := []int{0, 1, 2, 3, 4}
